@@ -183,6 +183,8 @@ package tcell
 //@   ensures [widths] wd0 ==> cbwidths(cb)
 //@   modifies cb.cells[*].lock
 
+// (never-locked: unlocking a cell that was not locked changes nothing - in particular it is not repainted; C13 "writes
+// cell content only to cells whose rune, combining runes or style changed")
 //@ func (*CellBuffer).UnlockCell
 //@   arith math
 //@   requires cbwf(cb)
@@ -190,8 +192,9 @@ package tcell
 //@   let wd0 = cbwidths(cb)
 //@   ensures [shape] shapeKept(cb, old(cb.w), old(cb.h), old(cb.cells))
 //@   ensures [others] forall k int :: 0 <= k && k < len(cb.cells) && (k != y*cb.w+x || !inRange(cb, x, y)) ==> cb.cells[k] == old(cb.cells[k])
-//@   ensures [unlocked] inRange(cb, x, y) ==> !cb.cells[y*cb.w+x].lock && isDirty(cb.cells[y*cb.w+x]) &&
+//@   ensures [unlocked] inRange(cb, x, y) && old(cb.cells[y*cb.w+x].lock) ==> !cb.cells[y*cb.w+x].lock && isDirty(cb.cells[y*cb.w+x]) &&
 //@              sameCurr(cb.cells[y*cb.w+x], old(cb.cells[y*cb.w+x])) && sameLastTail(cb.cells[y*cb.w+x], old(cb.cells[y*cb.w+x]))
+//@   ensures [never-locked] inRange(cb, x, y) && !old(cb.cells[y*cb.w+x].lock) ==> cb.cells[y*cb.w+x] == old(cb.cells[y*cb.w+x])
 //@   ensures [width-inv] wi0 ==> cbwidthinv(cb)
 //@   ensures [widths] wd0 ==> cbwidths(cb)
 //@   modifies cb.cells[*]
